@@ -8,7 +8,9 @@ from hypothesis import strategies as st
 VAR_POOLS = {
     "std": ["S", "A", "B", "C"],
     "long": ["S", "Aa", "B1", "Cvar"],
-    "fresh": ["S", "A", "#STARTUNION#", "A#SUBS#0", "#STARTCONC#", "C#CNF#1", "a#CNF#", "#STARTSTAR#"],
+    # every name the library itself creates for fresh variables (cfg.py) can also be a user's variable
+    "fresh": ["S", "A", "#STARTUNION#", "#STARTCONC#", "#STARTCLOS#", "#STARTPOSCLOS#", "#VARPOSCLOS#", "A#SUBS#0",
+              "S#SUBS#0", "C#CNF#1", "a#CNF#", "b#CNF#", "#EMPTY##SUBS#0"],
     "lower": ["S", "x", "y", "z"],          # needs "VAR:" markers in text form
     "ints": ["S", 1, 2, 3],
 }
@@ -19,6 +21,7 @@ TERM_POOLS = {
     "upper": ["a", "B"],                     # needs "TER:" markers in text form
     "shared": ["a", "A", "S"],               # terminals spelled like variables
     "ints": [0, 1],
+    "fresh": ["a", "b", "#1CLOS#", "#0UNION#", "#1UNION#", "#0CONC#", "#1CONC#", "#1POSCLOS#"],   # the library's placeholder terminals
 }
 TEXT_OK_VARS = ("std", "long", "lower")
 TEXT_OK_TERMS = ("ab", "abc", "tok", "upper", "shared")
@@ -33,8 +36,8 @@ def cfg_desc(draw, var_pools=None, term_pools=None, max_vars=4, max_prods=8, max
     nv = min(draw(st.sampled_from([3, 2, 4, 3, 1, 2, 4])), max_vars, len(vpool))
     vs = [vpool[0]] + draw(st.lists(st.sampled_from(vpool[1:]), min_size=nv - 1, max_size=nv - 1,
                                     unique_by=repr)) if nv > 1 else [vpool[0]]
-    nt = draw(st.integers(1, len(tpool)))
-    ts = tpool[:nt]
+    nt = draw(st.integers(1, min(3, len(tpool))))
+    ts = tpool[:2] + draw(st.lists(st.sampled_from(tpool[2:]), max_size=1)) if len(tpool) > 3 else tpool[:nt]
     sym = st.one_of(st.sampled_from(vs).map(lambda v: ["V", v]),
                     st.sampled_from(ts).map(lambda t: ["T", t]))
     body_len = st.sampled_from([2, 1, 2, 3, 0, 1, 2, 3, max_body][: 8 if max_body < 4 else 9])
